@@ -114,7 +114,7 @@ def main() -> int:
         test_names |= {b, b.upper(), b.capitalize()}
     test_names = sorted(n for n in test_names if not any(c in n for c in "\"'\\\n\r\x00"))
     jobs, info = [], {}
-    prefixes = ["field_"] if quick else ["field_", "f", "attr_", "_", "9"]
+    prefixes = ["field_"] if quick else ["field_", "f", "attr_", "_"]
     for ni, X in enumerate(test_names):
         for slot in SLOTS:
             if quick and (ni + SLOTS.index(slot)) % 3:
